@@ -79,15 +79,21 @@ func newScope(rootProvider *provider, parent *scope, ctx context.Context, cancel
 }
 
 // runInitializers calls the scoped services with no returns (initialization
-// functions). These need to be called when the scope is created.
+// functions). These need to be called when the scope is created. A scope whose
+// initialization fails is closed, so that whatever the earlier initializers
+// created is disposed and the scope's context is released.
 func (s *scope) runInitializers() error {
 	for _, descriptor := range s.rootProvider.voidReturnScopedDescriptors {
 		if _, err := s.createInstance(descriptor); err != nil {
-			return &ResolutionError{
+			initErr := &ResolutionError{
 				ServiceType: descriptor.Type,
 				ServiceKey:  descriptor.Key,
 				Cause:       fmt.Errorf("failed to initialize scoped service: %w", err),
 			}
+			if closeErr := s.Close(); closeErr != nil {
+				return errors.Join(initErr, closeErr)
+			}
+			return initErr
 		}
 	}
 
